@@ -33,8 +33,10 @@ type pipeCfg struct {
 	fireAt int
 	// perturbation seed
 	seed uint64
-	// invCallers: concurrent QueueInventory callers (block inventory).
+	// invCallers: concurrent QueueInventory callers (block inventory), each
+	// queueing nMsg+invExtra items (more than outputInvChan holds).
 	invCallers int
+	invExtra   int
 }
 
 type pipeObs struct {
@@ -193,7 +195,7 @@ func runPipe(c pipeCfg) pipeObs {
 			defer wg.Done()
 			r := core.NewRand(c.seed*2654435761 + uint64(k))
 			<-start
-			for j := 0; j < c.nMsg; j++ {
+			for j := 0; j < c.nMsg+c.invExtra; j++ {
 				perturb(r)
 				var h chainhash.Hash
 				binary.LittleEndian.PutUint64(h[:8], uint64(k*1000+j)+c.seed)
